@@ -137,6 +137,20 @@ def run(chk: Check):
     for _ in range(n_grids // 3):
         ncols = rng.randint(1, 6)
         grids = [gen_grid(rng, chk) for _ in range(ncols)]
+        if rng.random() < 0.35 and ncols >= 2:
+            # columns whose grids look alike from outside (same size, same first and last element) or are the very same grid,
+            # but differ inside: each column must still be snapped against its own grid
+            base = grids[0]
+            for j in range(1, ncols):
+                r = rng.random()
+                if r < 0.3:
+                    grids[j] = base.copy()
+                elif len(base) >= 3 and r < 0.9:
+                    inner = np.sort(np.array([rng.uniform(float(base[0]), float(base[-1])) for _ in range(len(base) - 2)]))
+                    g = np.concatenate([[base[0]], inner, [base[-1]]])
+                    if np.all(np.diff(g) > 0):
+                        grids[j] = g
+            chk.count("digitize:look_alike_grids")
         nrows = rng.choice([0, 1, 2, 3, 7, 20, 50])
         data = np.zeros((nrows, ncols))
         for j in range(ncols):
